@@ -449,7 +449,7 @@ func (p *Parent) finish(start time.Time) int {
 	// evidence
 	cov := map[string]any{
 		"evaluations":         p.Evaluations,
-		"distinct_nontrivial": len(p.hashes),
+		"distinct_nontrivial": int64(len(p.hashes)) + p.Counters["distinct_by_construction"],
 		"trivial_or_repeat":   p.Trivial,
 		"rule":                p.plan.Rule,
 		"samples":             p.Samples,
@@ -490,7 +490,7 @@ func (p *Parent) finish(start time.Time) int {
 	os.WriteFile(filepath.Join(p.Root, "evidence", id+".json"), eb, 0o644)
 
 	fmt.Printf("%s %s seed=%d: evaluations=%d distinct_nontrivial=%d inconclusive=%d known=%d violations=%d wall=%.1fs\n",
-		id, p.Tier, p.Seed, p.Evaluations, len(p.hashes), p.Counters["inconclusive"], len(knownHit), violations, time.Since(start).Seconds())
+		id, p.Tier, p.Seed, p.Evaluations, int64(len(p.hashes))+p.Counters["distinct_by_construction"], p.Counters["inconclusive"], len(knownHit), violations, time.Since(start).Seconds())
 	// print the monitor counters so the log shows what was observed
 	var keys []string
 	for k := range p.Counters {
